@@ -30,8 +30,8 @@ def textOf : J → Option Str
 
 /-- the finite number a supplied scalar denotes -/
 def numOf : J → Option Dec
-  | .num s => match parseDec s with | .ok d => some d | .error _ => none
-  | .str s => match parseDec s with | .ok d => some d | .error _ => none
+  | .num s => match floatSyntax s with | .ok (.fin d) => some d | _ => none
+  | .str s => match floatSyntax s with | .ok (.fin d) => some d | _ => none
   | _ => none
 
 def numEqv : Num → Num → Bool
@@ -89,11 +89,6 @@ def optionsOK (o : Opts) (k : Option Kind) (x : J) : Bool :=
   | some t => o.options.contains t
   | none => false
 
-def derefKind : Ty → Option Kind
-  | .ptr t => derefKind t
-  | .prim k => some k
-  | _ => none
-
 /-- the declarative counterpart of one field (`conv` = holds the supplied value, `absent` = what an absent
 required field may hold, `dflt` = holds the default, `isZ` = untouched) -/
 def fieldSat (c : Cfg) (name : Str) (tag : Option Str) (isSlice : Bool) (k : Option Kind) (m : Obj) (v : Val)
@@ -137,9 +132,35 @@ def isZeroFields : Fields → VFields → Bool
     | .nil => false
 end
 
+/-- positional correspondence of the elements of an array with the elements of a result list -/
+def satElems (p : J → Val → Bool) : List J → VList → Bool
+  | [], .nil => true
+  | j :: rest, .cons v vs => p j v && satElems p rest vs
+  | _, _ => false
+
+/-- positional correspondence of the (canonical) entries of an object with the entries of a result map -/
+def satEntries (p : J → Val → Bool) : Obj → VFields → Bool
+  | [], .nil => true
+  | (k, j) :: rest, .cons k' v vs => k == k' && p j v && satEntries p rest vs
+  | _, _ => false
+
+/-- the result of a supplied array: `[]` gives an empty slice, all-null leaves nil, else element by element -/
+def sliceSat (p : J → Val → Bool) (l : List J) (v : Val) : Bool :=
+  if l.isEmpty then (match v with | .list .nil => true | _ => false)
+  else if allNull l then (match v with | .nil => true | _ => false)
+  else match v with | .list vs => satElems p l vs | _ => false
+
+def strListIs : List Str → VList → Bool
+  | [], .nil => true
+  | s :: rest, .cons v vs => scalarEq (.str s) v && strListIs rest vs
+  | _, _ => false
+
 def satDefault : Ty → Str → Val → Bool
   | .ptr t, d, v => match v with | .ptr v' => satDefault t d v' | _ => false
   | .prim k, d, v => match convertFromString k d with | .ok v' => scalarEq v' v | .error _ => false
+  | .slice (.prim .string), d, v =>
+    if (parseGroupedSegments d).isEmpty then (match v with | .nil => true | _ => false)
+    else match v with | .list vs => strListIs (parseGroupedSegments d) vs | _ => false
   | _, _, _ => false
 
 mutual
@@ -151,15 +172,21 @@ def satTy (c : Cfg) : Ty → J → Val → Bool
     match j, v with
     | .obj m, .struct vs => satFields c fs m vs
     | _, _ => false
-  | .slice _, _, _ => false
-  | .map _, _, _ => false
+  | .slice t, j, v =>
+    match j with
+    | .arr l => sliceSat (fun j v => if j.isNull then isZero t v else satTy c t j v) l v
+    | _ => false
+  | .map t, j, v =>
+    match j, v with
+    | .obj m, .map vm => satEntries (fun j v => satTy c t j v) (canonObj m) vm
+    | _, _ => false
 /-- what a field that is absent, not optional and not defaulted may hold: only nested structs, as if `{}` was supplied -/
 def satAbsent (c : Cfg) : Ty → Val → Bool
   | .ptr t, v => match v with | .ptr v' => satAbsent c t v' | _ => false
   | .prim _, _ => false
   | .struct fs, v => match v with | .struct vs => satFields c fs [] vs | _ => false
   | .slice _, _ => false
-  | .map _, _ => false
+  | .map _, v => match v with | .map .nil => true | _ => false
 def satFields (c : Cfg) : Fields → Obj → VFields → Bool
   | .nil, _, vs => match vs with | .nil => true | _ => false
   | .cons name tag t rest, m, vs =>
